@@ -34,11 +34,13 @@ FirstNotOK(vs) ==
 RtVerdict(rec) ==
     IF rec.rt.exc # "" THEN (IF Bridgeable(rec.s) THEN "raises" ELSE "SKIP:refusal")
     ELSE IF NFM(rec.rt.e) = NFM(rec.s) THEN "OK" ELSE "differs"
+\* the bridge's match / match_anywhere are known to refuse star wildcards (Multiset / tuple
+\* bindings are not converted back); any other exception is a failure, not a refusal
 MatchVerdict(rec) ==
-    IF rec.match.exc # "" THEN "SKIP:refusal"
+    IF rec.match.exc # "" THEN (IF HasStar(rec.p) THEN "SKIP:refusal" ELSE "match-raised")
     ELSE FirstNotOK([i \in 1..Len(rec.match.subs) |-> SubstVerdict(rec.p, rec.match.subs[i], rec.s)])
 AnyVerdict(rec) ==
-    IF rec.anyw.exc # "" THEN "SKIP:refusal"
+    IF rec.anyw.exc # "" THEN (IF HasStar(rec.p) THEN "SKIP:refusal" ELSE "match-anywhere-raised")
     ELSE LET whole == SubNFs(NFM(rec.s)) IN
          FirstNotOK([i \in 1..Len(rec.anyw.hits) |->
             LET h == rec.anyw.hits[i] IN
